@@ -161,7 +161,7 @@ class ClassNames:
 
 
 class XsdGen:
-    def __init__(self, rng, salt, hostile=False, max_types=4, depth=2, simple=False, nest_p=0.12, cycle_p=0.15):
+    def __init__(self, rng, salt, hostile=False, max_types=4, depth=2, simple=False, nest_p=0.12, cycle_p=0.15, subst_p=0.2):
         self.rng = rng
         self.salt = salt
         self.hostile = hostile
@@ -170,6 +170,7 @@ class XsdGen:
         self.simple = simple  # restrict to the order-preserving sub-fragment
         self.nest_p = nest_p  # probability of a nested group per particle
         self.cycle_p = cycle_p  # probability of a reference cycle over 2-3 named types
+        self.subst_p = subst_p  # probability of a substitution group
         self.used_global = set()
         self.class_names = ClassNames()
         self.family = None
@@ -461,6 +462,22 @@ class XsdGen:
                 ge = other.elements[0]
                 c.content.items.append(ElemDecl(ge.name, ge.type, min=0, max=1, ref=True, ns=other.tns, is_global=True))
                 self.feat.add("element-ref")
+        # substitution group: head <- m1 <- m2 (transitive), referenced from a sequence of some type
+        if rng.random() < self.subst_p and main.ctypes and not self.simple:
+            host = rng.choice([c for c in main.ctypes if c.content is not None and c.content.kind == "sequence" and not any(isinstance(x, AnyP) for x in iter_particles(c.content))] or [None])
+            if host is not None:
+                ht = rng.choice([SimpleT(None, rng.choice(["string", "int", "date"])), rng.choice(main.ctypes)])
+                head = ElemDecl(self.gname("head"), ht, is_global=True, ns=main.tns)
+                members = [head]
+                for i in range(rng.choice([1, 2, 2])):
+                    parent = members[-1] if rng.random() < 0.6 else head  # chains (transitive) and siblings
+                    m = ElemDecl(self.gname("member"), ht, is_global=True, ns=main.tns, subst_head=parent.name)
+                    members.append(m)
+                main.elements.extend(members)
+                if ge_free(host, head.name) and all(ge_free(host, m.name) for m in members):
+                    mn = 0 if isinstance(ht, ComplexT) else rng.choice([0, 1])  # (a required reference could recurse for ever)
+                    host.content.items.append(ElemDecl(head.name, ht, min=mn, max=rng.choice([1, -1]), ref=True, ns=main.tns, is_global=True))
+                    self.feat.add("substitution-group")
         # global elements (roots)
         roots = main.ctypes[-rng.randrange(1, min(3, len(main.ctypes)) + 1):]
         for ct in roots:
@@ -659,6 +676,8 @@ class Renderer:
         anonymous = isinstance(e.type, ComplexT) and e.type.name is None
         if not anonymous:
             x += f' type="{self.type_ref(s, e.type)}"'
+        if top and e.subst_head:
+            x += f' substitutionGroup="{self.qref(s, e.ns, e.subst_head)}"'
         if not top:
             x += occ(e.min, e.max)
             if e.qualified is not None:
@@ -893,6 +912,18 @@ class Resolver:
                         out[self.el_qname(x, c.ns)] = (x, c.ns)
         return out
 
+    def substitutes(self, head: ElemDecl):
+        """Global elements that can stand for `head` (transitively), as ElemDecl of the same namespace."""
+        out, frontier = [], [head.name]
+        els = [e for s in self.ss.all() for e in s.elements if e.ns == head.ns]
+        while frontier:
+            h = frontier.pop()
+            for e in els:
+                if e.subst_head == h and e not in out:
+                    out.append(e)
+                    frontier.append(e.name)
+        return out
+
     def subtypes(self, ct):
         return [c for s in self.ss.all() for c in s.ctypes if c is not ct and ct in self.chain(c)]
 
@@ -1032,8 +1063,14 @@ class DocGen:
             if isinstance(x.type, ComplexT) and self.depth > 4:
                 n = x.min
             for _ in range(n):
-                ch = etree.SubElement(parent, self.R.el_qname(x, owner_ns))
-                self.fill(ch, x, owner_ns)
+                decl = x
+                if x.ref and self.mode != "minimal":
+                    group = self.R.substitutes(x)
+                    if group:
+                        decl = rng.choice([x] + group)  # any member of the substitution group may stand for the head
+                ch = etree.SubElement(parent, self.R.el_qname(decl, owner_ns))
+                self.fill(ch, decl, owner_ns)
+                x = x if decl is x else x
                 if mixed and rng.random() < 0.4 and not self.captures_tail(ch, x):
                     ch.tail = rng.choice(["tail text", " t "])
 
